@@ -508,6 +508,52 @@ def project(tr):
     return project_async(tr) + [(c, a) for c, a in tr if c in (40, 41, 42, 2)]
 
 
+def real_openssl_stage(rep, tier, seed):
+    """two end-to-end regressions against REAL OpenSSL (no scripted engine): the library of /repo's current tree built WITH_TLS
+    and linked with libssl; real loopback sockets, real handshakes. f8: asynchronous server, blocking client that sends right behind
+    its Finished, writability polls on the driver thread delayed (interposed poll); f9: asynchronous client that only listens."""
+    import shutil, tempfile
+    out = []
+    try:
+        r = sh([os.path.join(VERIF, "harness", "build.sh"), "tls"], timeout=900)
+        if r.returncode != 0:
+            return [("realssl", "the library could not be built WITH_TLS against /repo's current tree:\n" + r.stderr[-3000:])]
+        libdir = r.stdout.strip().split("\n")[-1]
+        work = os.path.join(BUILD, "real_openssl")
+        os.makedirs(work, exist_ok=True)
+        if not os.path.exists(os.path.join(work, "cert.pem")):
+            k = sh(["openssl", "req", "-x509", "-newkey", "rsa:2048", "-nodes", "-keyout", "key.pem", "-out", "cert.pem", "-days", "3650", "-subj", "/CN=localhost"],
+                   cwd=work, timeout=120)
+            if k.returncode != 0:
+                rep.cov["real_openssl"] = "skipped: could not create a certificate (%s)" % k.stderr[-200:]
+                return []
+        runs = []
+        for name, argsets in (("f8_pending_data_demo", [["0", "2"], ["1", "1"], ["1", "2"], ["2", "2"]]), ("f9_idle_client_demo", [[]])):
+            exe = os.path.join(libdir, name)
+            src = os.path.join(VERIF, "corpus", "real_openssl", name + ".cpp")
+            if not os.path.exists(exe) or os.path.getmtime(exe) < os.path.getmtime(src):
+                c = sh(["g++", "-std=c++17", "-O1", "-DSOCKPUPPET_WITH_TLS", "-I" + os.path.join(REPO, "include"), "-I" + os.path.join(REPO, "src"), src,
+                        os.path.join(libdir, "libsp.a"), "-lssl", "-lcrypto", "-lpthread", "-o", exe], timeout=600)
+                if c.returncode != 0:
+                    return [("realssl", "the real-OpenSSL regression %s does not build against /repo's current tree:\n%s" % (name, c.stderr[-3000:]))]
+            for a in argsets:
+                try:
+                    p = subprocess.run([exe] + a, cwd=work, capture_output=True, text=True, timeout=60)
+                    ok = p.returncode == 0 and "PASS" in p.stdout
+                    txt = (p.stdout + p.stderr)[-1500:]
+                except subprocess.TimeoutExpired:
+                    ok, txt = False, "timed out after 60 s"
+                runs.append("%s %s: %s" % (name, " ".join(a), "PASS" if ok else "FAIL"))
+                if not ok:
+                    out.append(("realssl", "# real OpenSSL, real sockets: %s %s fails on /repo's current tree\n# build: g++ -std=c++17 -DSOCKPUPPET_WITH_TLS -I/repo/include -I/repo/src "
+                                "%s <libsp.a of harness/build.sh tls> -lssl -lcrypto -lpthread; run in a directory with cert.pem/key.pem\n%s\n" % (name, " ".join(a), src, txt)))
+        rep.cov["real_openssl"] = runs
+        rep.cov["evaluations"] = rep.cov.get("evaluations", 0) + len(runs)
+    except Exception as e:      # the stage is supporting evidence: a broken environment must not turn into an alarm
+        rep.cov["real_openssl"] = "skipped: %r" % (e,)
+    return out
+
+
 def corpus():
     import os
     out = []
@@ -519,7 +565,7 @@ def corpus():
 
 
 SPEC = {
-    "id": "C18", "corpus": corpus, "module": "Properties_C18", "theorems": THEOREMS, "harness": "simtls", "flavour": "tlssan",
+    "id": "C18", "corpus": corpus, "extra": real_openssl_stage, "module": "Properties_C18", "theorems": THEOREMS, "harness": "simtls", "flavour": "tlssan",
     "generate": generate, "project": project, "nontrivial_key": nontrivial_key, "monitor": monitor,
     "distribution": distribution, "chooser": kernel, "search_rounds": 2, "finding_key": finding_key,
     "rule": "one TLS socket per case in client or server (accepted) role, basic / buffered / asynchronous API, every timeout mode and order of first Send/Receive; the scripted engine "
